@@ -1185,8 +1185,13 @@ package mcp
 //@ func encodeHeaderValue [C12]
 //@   track requiresBase64Encoding as wrap
 //@   ensures @plain-strings-are-mirrored-verbatim typeIs(value, string) && calls(wrap) == 1 && !callResult(wrap, 1, 0) ==> result.1 && result.0 == value.(string)
+// requiresBase64Encoding: a value that is sent as it stands consists of visible ASCII only (0x20-0x7E: no control
+// bytes, no DEL, nothing above ASCII - net/http refuses such header values) and has no blank at either end.
 //@ func requiresBase64Encoding [C12]
 //@   pure
+//@   ensures @plain-values-are-visible-ascii !result ==> (forall j int :: {s[j]} 0 <= j && j < len(s) ==> s[j] >= 32 && s[j] <= 126)
+//@   ensures @plain-values-have-no-blank-at-either-end !result && len(s) > 0 ==> s[0] != 32 && s[0] != 9 && s[len(s)-1] != 32 && s[len(s)-1] != 9
+//@   loop 1: invariant @visited-bytes-are-visible-ascii forall j int :: {s[j]} 0 <= j && j < $pos ==> s[j] >= 32 && s[j] <= 126
 //@ func encodeBase64 [C12]
 //@   pure
 
